@@ -267,6 +267,8 @@ class _Pos:
 
 
 def _fetch_slice(split, pad0, pad1, vr1, i, off, ln):
+    split, pad0, pad1, vr1, i = mark.pick(split, 1, 2), mark.pick(pad0, 0, 1), mark.pick(pad1, 0, 1), mark.pickb(vr1), mark.pick(i, 0, 1)
+    off, ln = mark.pick(off, 0, 24), mark.pick(ln, -1, 24)
     recs = build(2, split, [(pad0, False, False, False, True), (pad1, True, False, False, vr1)], [7, 9])
     import os
     if 'get_file_logical_data_range_spans_segments' in os.environ.get('VERIF_EXCLUDE', '') and _crosses_segment_boundary(recs, i, off, ln):
